@@ -3,8 +3,12 @@
 (* run fail (and touch no output); under serde(skip)/typeshare(skip) the run succeeds.              *)
 EXTENDS Naturals, Sequences
 
-TypeConstructs == {"u64", "i64", "usize", "isize", "tuple2", "tuple3_nested"}
-ItemConstructs == {"multi_tuple_struct", "multi_tuple_variant", "flatten_field", "flatten_vfield", "untagged_data_enum",
+\* tuple1: (T,) - a one-element tuple (trailing comma) is a tuple (serde: 1-element array); (T) is just T in parentheses
+TypeConstructs == {"u64", "i64", "usize", "isize", "tuple2", "tuple3_nested", "tuple1"}
+\* flatten_*_sas / _merged / _second: serde(flatten) next to typeshare(serialized_as) on the same field, merged into one
+\* #[serde(..)] list with other arguments, or in a second #[serde(..)] attribute: flatten is unsupported however it is accompanied
+FlattenConstructs == {"flatten_field", "flatten_vfield", "flatten_field_sas", "flatten_vfield_sas", "flatten_field_merged", "flatten_field_second"}
+ItemConstructs == FlattenConstructs \cup {"multi_tuple_struct", "multi_tuple_variant", "untagged_data_enum",
                    "tag_without_content", "content_without_tag", "tag_on_unit_enum", "content_on_unit_enum",
                    "const_string", "const_float", "const_expr", "const_bool", "const_path"}
 \* a negated (or parenthesized) integer literal is still an integer literal: it must be generated with its value
@@ -16,7 +20,7 @@ Unsupported == TypeConstructs \cup ItemConstructs
 
 \* where a skip marker can shelter the construct
 Skippable(c) == \/ c.construct \in TypeConstructs /\ c.carrier \in {"field", "vfield", "payload", "sas_field"}
-                \/ c.construct \in {"multi_tuple_variant", "flatten_field", "flatten_vfield"} \cup SkipMakesUnsupported
+                \/ c.construct \in {"multi_tuple_variant"} \cup FlattenConstructs \cup SkipMakesUnsupported
 Sheltered(c) == c.skip # "none" /\ Skippable(c) /\ c.construct \notin SkipMakesUnsupported
 MustReject(c) == IF c.construct \in SkipMakesUnsupported THEN c.skip # "none" ELSE c.construct \in Unsupported /\ ~Sheltered(c)
 
